@@ -114,6 +114,12 @@ def check(run, driver):
         run.case("linear", case, nontrivial, sample=case)
         if not (np.array_equal(XY, XY2) and np.array_equal(A, A2)):
             run.prop_fail("same seed gives different output", case, {"clause": "determinism", "generator": "linear"})
+        else:
+            XY_keep, A_keep = XY.copy(), A.copy()
+            A2 *= 0; A2 += 7; XY2 *= 0
+            XY3b, A3b = S.linear_stochastic_gaussian_process(G=G, **cfg)
+            if not (np.array_equal(XY_keep, XY3b) and np.array_equal(A_keep, A3b)):
+                run.prop_fail("same seed gives different output after the caller edited the previously returned arrays in place", case, {"clause": "determinism", "generator": "linear", "history": "returned arrays edited"})
         if not globals_untouched or any(k.startswith("global:") for k, _ in shim.log):
             run.prop_fail("global random generator read or advanced", case, {"clause": "determinism", "generator": "linear"})
         if XY.shape != (T, n) or A.shape != (n, n):
@@ -199,6 +205,13 @@ def check(run, driver):
         run.case("poisson", case, Guse.number_of_edges() > 0 and T >= 3, sample=case)
         if not (np.array_equal(X, X2) and np.array_equal(A, A2)):
             run.prop_fail("same seed gives different output", case, {"clause": "determinism", "generator": "poisson"})
+        else:
+            # the caller owns what was returned: editing it in place must not reach a later call with the same arguments
+            X_keep, A_keep = X.copy(), A.copy()
+            A2 *= 0; A2 += 7; X2 *= 0
+            X3, A3 = S.poisson_coupled_oscillators(G=G, **cfg)
+            if not (np.array_equal(X_keep, X3) and np.array_equal(A_keep, A3)):
+                run.prop_fail("same seed gives different output after the caller edited the previously returned arrays in place", case, {"clause": "determinism", "generator": "poisson", "history": "returned arrays edited"})
         if not globals_untouched or any(k.startswith("global:") for k, _ in shim.log):
             run.prop_fail("global random generator read or advanced", case, {"clause": "determinism", "generator": "poisson"})
         if X.shape != (T, n):
